@@ -8,7 +8,7 @@ Engine E2 (parts A, B, N) + engine E1 replay-mode BFS (part C, mc/props/c13_hist
     master variants 'template' (title, body, dt, ftr, sldNum present) and 'bare' (no master placeholder).
  N. notes slides: `slide.notes_slide` on a new slide of every corpus deck (notes master of the deck, or the
     default one python-pptx creates) and on generated notes-master populations (singles: 17 types x 2 orient x 4 idx
-    x 2 xfrm x 4 sz; thorough adds ordered pairs over {sldImg, body, sldNum, hdr, dt, ftr}^2 x idx^2 x xfrm^2).
+    x 2 xfrm x 4 sz; ordered pairs over {sldImg, body, sldNum, hdr, dt, ftr}^2 x idx^2 (2 idx values | all 4) x xfrm^2).
  C. histories (BFS depth 3 | 4): add_slide(L) for three layouts, move / resize a placeholder, type text, notes,
     save; every slide created so far is re-checked in every state, overridden attributes taken from the model.
 
@@ -577,9 +577,7 @@ def run(ctx):
     # ---- N
     n_items = [("corpus", F.corpus_name(p)) for p in F.corpus()]
     ns_cases, ns_n = G.notes_singles(types)
-    np_cases, np_n = G.notes_pairs()
-    if not ctx.thorough:
-        np_cases, np_n = [], 0
+    np_cases, np_n = G.notes_pairs(ctx.thorough)
     n_items += [("gen", p) for p in ns_cases + np_cases]
     fanout(ctx, _work_notes, ctx.rotate(n_items))
     if ctx.counters.get("notes_evaluations") != len(F.corpus()) + ns_n + np_n:
